@@ -479,6 +479,28 @@ func runC07(ctx *core.Ctx, pool *par.Pool) {
 		twinsRun += xstate.RunTwins(ctx, pool, twins)
 	}
 	ctx.Unshare()
+	// aborted transactions from the harvested seed states: Begin (with and without the overflow area), one operation,
+	// Rollback or Close; the memory-vs-disk oracle compares the allocator with a fresh open after every abort
+	abortAlphabet := func(pagedrv.Cfg) []O {
+		return []O{{K: pagedrv.OBegin}, {K: pagedrv.OBegin, B: 1}, {K: pagedrv.OAlloc, A: 1}, {K: pagedrv.OAlloc, A: 7}, {K: pagedrv.OAllocAvail, A: 0},
+			{K: pagedrv.OWrite, A: 0, B: pagedrv.WFull}, {K: pagedrv.OWriteAll, B: pagedrv.WFull}, {K: pagedrv.OFree, A: 0}, {K: pagedrv.OFree, A: -1},
+			{K: pagedrv.OFreeEveryOther}, {K: pagedrv.OAllocFreeNew, A: 3, B: 1}, {K: pagedrv.OFlushTx}, {K: pagedrv.OCheckpoint}, {K: pagedrv.ORollback}, {K: pagedrv.OCloseTx}}
+	}
+	stride := 8
+	if !ctx.Quick() {
+		stride = 1
+	}
+	hst, _, hseeds := harvestPassStride(ctx, pool, []string{"A", "B", "C", "D"}, abortAlphabet, []string{"memdisk"}, 3, "",
+		func(cfg pagedrv.Cfg) func(from *xstate.Node, s *xstate.Succ, isNew bool, to *xstate.Node) {
+			return func(from *xstate.Node, s *xstate.Succ, isNew bool, to *xstate.Node) {
+				if (s.Op.K == pagedrv.ORollback || s.Op.K == pagedrv.OCloseTx) && !s.Dead {
+					aborts++
+				}
+			}
+		}, stride)
+	total.States += hst.States
+	total.Transitions += hst.Transitions
+	ctx.Set("harvested_seed_states", hseeds)
 	ctx.Set("aborted_transactions_compared", aborts)
 	ctx.Set("twin_continuations_compared", twinsRun)
 	finishBFS(ctx, total, twinsRun)
